@@ -58,6 +58,25 @@ def run_c19(tier):
             break
         shutil.copy(out, os.path.join(tree, "internal/gontainer/gontainer.go"))
         trace.append({"ev": "install", "gen": g})
+    # the Makefile's own target (anchor of the property): `make self-compile` with generation 0 on PATH must give the same file
+    mk = None
+    if not v.violations and shutil.which("make"):
+        import subprocess
+        tree2 = os.path.join(wd, "tree-make")
+        shutil.copytree(core.REPO, tree2, ignore=shutil.ignore_patterns(".git"))
+        bindir = os.path.join(wd, "mk-bin")
+        os.makedirs(bindir)
+        shutil.copy(os.path.join(wd, "tool0"), os.path.join(bindir, "gontainer"))
+        p = subprocess.run(["make", "self-compile"], cwd=tree2, env=dict(os.environ, PATH=bindir + os.pathsep + os.environ.get("PATH", "")),
+                           stdout=subprocess.PIPE, stderr=subprocess.STDOUT, timeout=300)
+        mk = {"rc": p.returncode}
+        if p.returncode != 0:
+            v.disagree("make-self-compile-fails", {"command": "make self-compile"}, {"rc": p.returncode, "out": p.stdout.decode("utf8", "replace")[-600:]})
+        else:
+            b = strip_version(open(os.path.join(tree2, "internal/gontainer/gontainer.go"), "rb").read())
+            mk["digest"] = name(b)
+            if b != checked:
+                v.disagree("fixpoint", {"command": "make self-compile"}, {"what": "the Makefile target regenerates a different file than the checked-in one"})
     accepted = None
     if not v.violations:
         r = core.run_tlc("Trace_SelfHost.tla", "Trace_SelfHost.cfg", workers=1, timeout=300, want_emits=False,
@@ -78,7 +97,7 @@ def run_c19(tier):
                        "against SelfHost.tla, whose invariants Fixpoint (every regeneration equals the checked-in file) and "
                        "Functional (same tool, same output) are evaluated at every step." % rounds,
         "evaluations": len([e for e in trace if e["ev"] == "regen"]), "distinct_nontrivial": 2,
-        "samples": [trace], "traces_validated_against_impl": 1, "trace_accepted": accepted,
+        "samples": [trace], "traces_validated_against_impl": 1, "trace_accepted": accepted, "make_self_compile": mk,
     }, time.time() - t0, violations=len(v.violations),
         assumptions=["the regeneration command is the Makefile's self-compile target (patterns and their order)"])
     return rc
